@@ -133,6 +133,16 @@ theorem usageKey_eq_bookKey_of_not_unix (na : NetAddr) (h : isUnixNet na.network
     na.usageKey off = na.bookKey off := by
   simp [NetAddr.usageKey, NetAddr.bookKey, NetAddr.bindAddress, h]
 
+/-- **A socket of a port range and the same port written as an address of its own share the booking key**
+    (and the usage and QUIC keys): a reload from `h:8080-8081` to `h:8080` keeps that listener, one from
+    `h:8080` to the range adds one. This is why the lifecycle machine can work on sockets: the harness
+    writes p0, p1 as the range `r0` or singly, the keys are the same. -/
+theorem range_socket_key_eq_single (nw h : String) (sp ep off : Nat) :
+    (NetAddr.mk nw h sp ep).bookKey off = (NetAddr.mk nw h (sp + off) (sp + off)).bookKey 0 ∧
+    (NetAddr.mk nw h sp ep).usageKey off = (NetAddr.mk nw h (sp + off) (sp + off)).usageKey 0 ∧
+    (NetAddr.mk nw h sp ep).quicKey off = (NetAddr.mk nw h (sp + off) (sp + off)).quicKey 0 := by
+  simp [NetAddr.bookKey, NetAddr.usageKey, NetAddr.quicKey, NetAddr.bindAddress, NetAddr.joinHostPort]
+
 /-- the sockets of a port range: as many as ports, none for an inverted range -/
 theorem size_eq (na : NetAddr) (h : na.startPort ≤ na.endPort) : na.size = na.endPort - na.startPort + 1 := by
   simp [NetAddr.size, Nat.not_lt.mpr h]
